@@ -147,7 +147,12 @@ func (obj *Package) Use(pkg *Package) {
 		}
 		for name, vv := range pkg.vars {
 			if vv.Export {
-				if xv := obj.vars[name]; xv == nil || xv.Pkg != obj {
+				// An unbound placeholder for a compiled reference is not a
+				// definition.
+				if ph := obj.placeholderVar(name); ph != nil {
+					ph.inherit(vv)
+					obj.vars[name] = vv
+				} else if xv := obj.vars[name]; xv == nil || xv.Pkg != obj {
 					obj.vars[name] = vv
 				}
 			}
@@ -494,6 +499,16 @@ func (obj *Package) Define(creator func(args List) Object, doc *FuncDoc, aux ...
 	return &fi
 }
 
+// placeholderVar returns the variable registered under the name if it is only
+// the unbound placeholder of a reference compiled before a variable of that
+// name was visible in the package.
+func (obj *Package) placeholderVar(name string) *VarVal {
+	if xv := obj.vars[name]; xv != nil && xv.Pkg == obj && xv.Val == Unbound && !xv.Export {
+		return xv
+	}
+	return nil
+}
+
 // undefineCalls makes the calls already compiled to the named function, which
 // share the lambda registered for it, raise undefined-function again.
 func (obj *Package) undefineCalls(name string) {
@@ -547,7 +562,10 @@ func (obj *Package) Export(name string) {
 			vv.Export = true
 			for _, u := range obj.Users {
 				u.mu.Lock()
-				if xv := u.vars[name]; xv == nil {
+				if ph := u.placeholderVar(name); ph != nil {
+					ph.inherit(vv)
+					u.vars[name] = vv
+				} else if xv := u.vars[name]; xv == nil {
 					u.vars[name] = vv
 				}
 				u.mu.Unlock()
